@@ -188,6 +188,8 @@ static std::vector<LCfg> & lpool()
       {"dbd", "Nd150", 0, 13, 0, 0}, {"dbd", "Ca48", 0, 14, 0, 0}, {"dbd", "Zr96", 0, 15, 0, 0}, {"dbd", "Xe136", 1, 16, 0.2, 1.0}, {"dbd", "Mo100", 0, 18, 0, 0}, {"dbd", "Se82", 0, 19, 0, 0}, {"dbd", "Nd150", 0, 20, 0, 0},
       {"dbd", "Bi214", 0, 1, 0, 0}, {"dbd", "Rn222", 0, 4, 0, 0}, {"dbd", "Sn112", 4, 11, 0, 0}, {"dbd", "Cd116", 0, 4, 0.5, 1.5}};
     for (auto & c : dbd) v.push_back(c);
+    // the tabulated-spectra (gA) modes, when the harness provides data sets for them (BXDECAY0_DBD_GA_DATA_DIR): their loaders run at initialisation
+    if (getenv("BXDECAY0_DBD_GA_DATA_DIR")) { static const LCfg ga[] = {{"dbd", "Se82", 0, 21, 0, 0}, {"dbd", "Mo100", 0, 22, 0, 0}, {"dbd", "Cd116", 0, 23, 0, 0}, {"dbd", "Nd150", 0, 24, 0, 0}}; for (auto & c : ga) v.push_back(c); }
   }
   return v;
 }
@@ -313,6 +315,19 @@ int main(int argc, char ** argv)
           if (g_h0_calls.load()) { report("default-handler-invoked", "same configuration on " + std::to_string(T) + " threads: default GSL handler invoked", body); continue; }
           if (!same_ev) { report("events-differ:" + c.name + ":M" + std::to_string(c.mode), c.name + " mode " + std::to_string(c.mode) + " initialised and shot on " + std::to_string(T) + " threads at the same time: an instance does not produce the events it produces alone", body); continue; }
           rep.nt(body); rep.label("same-config:T" + std::to_string(T));
+        }
+        // the four gA configurations at the same time, one per thread (their table loaders overlap)
+        std::vector<int> ga; for (int i = 0; i < (int)P.size(); i++) if (P[i].mode >= 21) ga.push_back(i);
+        if (ga.size() >= 2) for (int rep_k = shard; rep_k < 6; rep_k += nsh) {
+          int T = (int)ga.size(); std::vector<std::string> seq(T), con(T); std::vector<std::thread> th; std::atomic<int> ready{0};
+          gsl_set_error_handler(&h0); g_h0_calls = 0;
+          for (int t = 0; t < T; t++) th.emplace_back([&, t] { ready++; while (ready.load() < T) std::this_thread::yield(); try { con[t] = lwork(P[ga[t]], 500 + rep_k, 3, t, 1, false); } catch (std::exception & e) { con[t] = std::string("EXC:") + e.what(); } });
+          for (auto & x : th) x.join();
+          for (int t = 0; t < T; t++) { try { seq[t] = lwork(P[ga[t]], 500 + rep_k, 3, t, 1, false); } catch (std::exception & e) { seq[t] = std::string("EXC:") + e.what(); } }
+          rep.evaluations++; bool same_ev = true; for (int t = 0; t < T; t++) if (seq[t] != con[t]) same_ev = false;
+          std::string body = "\"ga_configs_together\":" + std::to_string(T) + ",\"round\":" + std::to_string(rep_k);
+          if (!same_ev) { report("events-differ:gA-modes", "the four gA configurations initialised and shot on " + std::to_string(T) + " threads at the same time: an instance does not behave as it does alone (" + (con[0].compare(0, 4, "EXC:") == 0 ? con[0] : std::string("events differ")) + ")", body); continue; }
+          rep.nt(body); rep.label("gA-together");
         }
       }
       for (long k = shard; k < ncase; k += nsh) {
